@@ -272,12 +272,9 @@ func runC18(c *Ctx) {
 		if n == 0 {
 			r.Fail("add/licensed-by-not-shutdown", key, p.posStr(fd.Pos()), "no heap.Push found (vacuous)")
 		} else if bad != "" {
-			// Advisory only (DESIGN C18): the window exists by inspection (check under shutdownMutex, push later
-			// under heapMutex), but it could not be reproduced against the real code without a yield point, so it
-			// is neither armed as a violation nor listed as a known finding.
-			r.Advise("add/atomic-with-shutdown (advisory, not armed): " + bad)
+			r.Fail("add/atomic-with-shutdown", key, p.posStr(fd.Pos()), bad)
 		} else {
-			r.Advise("add/atomic-with-shutdown (advisory): shutdown check and push lie in one critical section")
+			r.Pass("add/atomic-with-shutdown", key, p.posStr(fd.Pos()), "shutdown check and push in one critical section")
 		}
 		f := newFuncCFG(p, info, fd.Body, key)
 		_, notShut := f.CondEdges(func(e ast.Expr) bool {
